@@ -4,7 +4,7 @@
    operation the harness also asks `k in cache` for every key of the alphabet and `len(cache)`).
    Observation = one character per output (see enc), so that coqc has little to parse. *)
 From Coq Require Import Floats Uint63.
-From Verif Require Import Base.Prelude Model.Caches Model.CachesSpec.
+From Verif Require Import Base.Prelude Model.Caches Model.CachesSpec Model.SharedSteps.
 
 (* durations / weights are dyadic rationals m * 2^e given by the harness (exactly the Python float) *)
 Inductive dy := Dy (m e : Z).
@@ -226,11 +226,87 @@ Definition conc_outcomes (mc : machine) (keys : nat) (setup a b : list gop) : li
 Definition case_cfg (c : case) : cfg :=
   match c with CSeq k _ => k | CTree k _ _ _ _ _ => k | CConc k _ _ _ _ => k end.
 
+(* ---------- two clients on the small-step model (Model/SharedSteps.v): EVERY schedule of the harness' step
+   scheduler is replayed; observation = sorted list of "<schedule>:<outputs of a>|<outputs of b>|<final probe>"
+   where <schedule> is the sequence of clients picked at the scheduling points *)
+Definition probe_dict (keys : nat) (d : list (nat * nat)) : ascii :=
+  let bits := fold_right (fun k acc => (if amem k d then 2 ^ k else 0) + acc) 0 (seq 0 keys) in
+  ascii_of_nat (40 + bits + 16 * length d).
+
+Section SmallStep.
+  Variables St Op : Type.
+  Variable code : Op -> prog St.
+  Variable dict_of : St -> list (nat * nat).
+  Definition outs_of (g : gstate St Op) (i : nat) : str :=
+    map (fun x => enc (snd x)) (rev (c_done (g_cl g i))).
+  Definition fin_str (keys : nat) (g : gstate St Op) : str :=
+    outs_of g 0 ++ ["|"%char] ++ outs_of g 1 ++ ["|"%char; probe_dict keys (dict_of (g_data g))].
+  Fixpoint scheds (fuel : nat) (keys : nat) (g : gstate St Op) (pre : str) : list str :=
+    match fuel with
+    | 0 => [pre ++ ["!"%char]]
+    | S f =>
+        match filter (fun i => runnable i g) [0; 1] with
+        | [] => [pre ++ [":"%char] ++ fin_str keys g]
+        | en => flat_map (fun i => scheds f keys (turn code 64 i g)
+                                          (pre ++ [ascii_of_nat (48 + i)])) en
+        end
+    end.
+  Definition two (a b : list Op) : nat -> list Op :=
+    fun i => match i with 0 => a | 1 => b | _ => [] end.
+End SmallStep.
+
+Definition un_dop (l : list gop) : list (op dy) :=
+  flat_map (fun o => match o with DOp x => [x] | Reopen _ => [] end) l.
+
+Definition conc_small (c : cfg) (keys : nat) (setup a b : list gop) : list str :=
+  match c with
+  | KLru mx _ =>
+      let d0 := final (lru_step mx) lru_empty (un_dop setup) in
+      sort_set (scheds lru (op dy) (lru_code dy mx) l_dict 200 keys
+                       (init d0 (two (op dy) (un_dop a) (un_dop b))) [])
+  | KHyb mx aw dw _ =>
+      let stp := hyb_step farith (fdy aw) (fdy dw) mx true in
+      let d0 := final stp hyb_empty (map conv (un_dop setup)) in
+      sort_set (scheds (hyb farith) (op float) (hyb_code farith (fdy aw) (fdy dw) mx) h_dict 200 keys
+                       (init d0 (two (op float) (map conv (un_dop a)) (map conv (un_dop b)))) [])
+  | _ => []
+  end.
+
 Definition obs_of (mc : machine) (c : case) : sx :=
   match c with
-  | CConc _ keys setup a b => SL (map SS (conc_outcomes mc keys setup a b))
+  | CConc k keys setup a b => SL (map SS (conc_small k keys setup a b))
   | _ => SS (drive mc c)
   end.
+
+(* helpers to judge an observed "<schedule>:<a>|<b>|<p>" *)
+Fixpoint after_colon (x : str) : str :=
+  match x with [] => [] | c :: t => if Ascii.eqb c ":"%char then t else after_colon t end.
+Fixpoint split_bar (x : str) (cur : str) : list str :=
+  match x with
+  | [] => [rev cur]
+  | c :: t => if Ascii.eqb c "|"%char then rev cur :: split_bar t [] else split_bar t (c :: cur)
+  end.
+Definition lock_free (o : gop) : bool := match o with DOp (Mem _) | DOp Len => true | _ => false end.
+(* results of the lock-free calls are not compared with the linearizations (they may see intermediate states) *)
+Fixpoint mask (ops : list gop) (x : str) : str :=
+  match ops, x with
+  | o :: ops', c :: x' => (if lock_free o then "?"%char else c) :: mask ops' x'
+  | _, _ => x
+  end.
+Definition masked (a b : list gop) (x : str) : str :=
+  match split_bar x [] with
+  | [oa; ob; p] => mask a oa ++ ["|"%char] ++ mask b ob ++ ["|"%char] ++ p
+  | _ => x
+  end.
+(* every len() result is at most max_size, also in the middle of another client's put *)
+Fixpoint lens_ok (mx : nat) (ops : list gop) (x : str) : bool :=
+  match ops, x with
+  | o :: ops', c :: x' =>
+      (match o with DOp Len => nat_of_ascii c <=? 48 + mx | _ => true end) && lens_ok mx ops' x'
+  | _, _ => true
+  end.
+Definition cfg_max (c : cfg) : nat :=
+  match c with KLru mx _ => mx | KHyb mx _ _ _ => mx | _ => 0 end.
 
 Definition run (c : case) : sx :=
   match model_machine (case_cfg c) with
@@ -249,10 +325,17 @@ Definition spec_ok (c : case) (o : sx) : bool :=
        | CConc _ keys setup a b, SL l =>
            (* every outcome of every schedule is the outcome of SOME sequential order of the operations on the
               abstract specification (each client's own order kept), and nothing raised *)
-           let lin := conc_outcomes (spec_machine (case_cfg c)) keys setup a b in
+           let lin := map (masked a b) (conc_outcomes (spec_machine (case_cfg c)) keys setup a b) in
            negb (match l with [] => true | _ => false end)
            && forallb (fun y => match y with
-                                | SS x => clean x && existsb (str_eqb x) lin
+                                | SS s =>
+                                    let x := after_colon s in
+                                    clean x && existsb (str_eqb (masked a b x)) lin
+                                    && match split_bar x [] with
+                                       | [oa; ob; _] => lens_ok (cfg_max (case_cfg c)) a oa
+                                                        && lens_ok (cfg_max (case_cfg c)) b ob
+                                       | _ => false
+                                       end
                                 | _ => false
                                 end) l
        | CConc _ _ _ _ _, _ => false
